@@ -533,9 +533,7 @@ update_linux_utsname(kdump_ctx_t *ctx)
 		return set_error(ctx, KDUMP_ERR_CORRUPT,
 				 "Wrong utsname content");
 
-	set_uts(ctx, &uts);
-
-	return KDUMP_OK;
+	return set_uts(ctx, &uts);
 }
 
 /** Read the Xen extra version string.
